@@ -103,7 +103,26 @@ def roundtrip_one(desc, tmp, acc):
             if got != before:
                 acc.violations.append(Violation("%s/%s/roundtrip/%s" % (kind, fmt, first_diff(got, before)),
                                                 "loaded %r\n   saved  %r" % (got, before), w, size))
-            else:
+            elif desc["weighted"] and desc["edges"] and not detour:
+                # second generation: change a weight on the LOADED object, save and load again
+                e0 = desc["edges"][0]
+                try:
+                    if kind in ("H", "D"):
+                        g.set_weight(e0, 9.5)
+                    elif kind == "T":
+                        g.set_weight(e0[1], e0[0], 9.5)
+                    else:
+                        g.set_weight(e0[0], e0[1], 9.5)
+                    want2 = kview(g, kind, True)
+                    save_hypergraph(g, path, binary=binary)
+                    g2 = load_hypergraph(path)
+                    got2 = kview(g2, kind, True)
+                except Exception as e:
+                    got2, want2 = ("ERR", type(e).__name__, str(e)[:100]), None
+                if got2 != want2:
+                    acc.violations.append(Violation("%s/%s/second-generation-roundtrip/%s" % (kind, fmt, first_diff(got2, want2) if want2 else "exception"),
+                                                    "load, set_weight, save, load: loaded %r\n   saved  %r" % (got2, want2), w, size))
+            if got == before:
                 acc.outcomes.add(hash(got))
                 if desc["edges"]:
                     acc.nontrivial.add(hash((fmt, got)))
@@ -121,6 +140,10 @@ def roundtrip_corpus(tier):
             ):
                 for d in gen:
                     yield ("rt", enrich(d, sty))
+                    if d["weighted"] and d["edges"] and sty == 1:
+                        z = dict(d)
+                        z["weights"] = (0,) + tuple(d["weights"][1:])  # a weight of exactly 0
+                        yield ("rt", enrich(z, sty))
 
 
 # ------------------------------------------------------------------------------------------------
